@@ -92,6 +92,7 @@ def unit_h1(cfg):
     name, dim, lengths, mode, want = cfg[:5]
     pid = cfg[5] if len(cfg) > 5 else "C01"
     magnetic = cfg[6] if len(cfg) > 6 else False
+    gates_open = cfg[7] if len(cfg) > 7 else False
     label = "H1/%s/%s/%s/mode=%s/%s" % (name, dim, ",".join("%s=%d" % kv for kv in sorted(lengths.items())) or "mono", mode, want)
     if magnetic:
         label += "/magnetic=" + ("all" if magnetic is True else "+".join(sorted(magnetic)))
@@ -103,12 +104,20 @@ def unit_h1(cfg):
         u.error("IR build/parse failed for %s: %r" % (name, e))
         return u.r
     info = km.info
-    mesh, syms = sym_mesh(info, lengths, dim, magnetic=magnetic)
+    mesh, syms = sym_mesh(info, lengths, dim, magnetic=magnetic, unit_weights=bool(gates_open))
     nq = 2 if dim == "1d" else 1
     q = symx.oarray([symx.real("q%d" % i) for i in range(nq * (1 if dim == "1d" else 2))])
     cutoff = symx.real("cutoff")
     A = kharness.mesh_constraints(syms) + [cutoff.t >= 0]
     ref_plain = Reference(km, mesh, q, cutoff, mode, dim)
+    if gates_open:
+        # larger meshes: every weight exceeds the cutoff and every point is valid
+        # (the gate semantics is covered by the small-mesh configurations)
+        label += "/gates-open"
+        u.r["unit"] = label
+        # (unit weights, zero cutoff: the weights' routing is covered by the small meshes)
+        A.append(cutoff.t == 0)
+        A.extend(pt["gate"] for pt in ref_plain.points)
     ref_mag = None
     if magnetic:
         ref_mag = Reference(km, mesh, q, cutoff, mode, dim, magnetic=True)
@@ -143,10 +152,14 @@ def unit_h1(cfg):
             continue
         r = p.result
         if magnetic:
-            # the real convert_magnetism decided (on this path) whether any magnitude is non-zero
-            ref = ref_mag if r["is_mag"] else ref_plain
-            want_buf = ref.buffer()
-            u.note("path %d: magnetic kernel selected = %s" % (pi, r["is_mag"])) if pi < 2 else None
+            # documented selection: the polarised formula applies iff some magnitude is non-zero
+            # (decided from the inputs, not from the flag the code computed on this path)
+            m0s = [term(syms[pid][0]) for pid in sorted(syms) if pid.endswith("_M0")
+                   and isinstance(syms[pid][0], Sym)]
+            anymag = z3.Or(*[t != 0 for t in m0s]) if m0s else z3.BoolVal(False)
+            ref = ref_mag
+            want_buf = [z3.If(anymag, a, b) for a, b in zip(ref_mag.buffer(), ref_plain.buffer())]
+            u.note("path %d: magnetic kernel selected by the code = %s" % (pi, r["is_mag"])) if pi < 2 else None
         defs = set(d.get_id() for d in r["defs"])
         if pi < 3:
             u.sample({"config": label, "path": pi, "kernel_calls": r["calls"],
